@@ -19,8 +19,8 @@ PREFIXES = ('C16:',)
 def run(ctx):
     sc.design_mc(ctx, "C16", ["MC_Scheduler_fork.cfg"], ["MC_Scheduler_fork_live.cfg"])
     runs = sc.matrix(ctx.tier, "fork")
-    if ctx.tier == "thorough":
-        # gated demonstration of the try_lock().unwrap() race (KNOWN-FINDING when it is hit)
+    # gated demonstration of the try_lock().unwrap() race (KNOWN-FINDING when it is hit)
+    if True:
         runs.append(sc.SRun("SemiSpace", "gate-trylock", driver="scheddrive", workers=2, mutators=1,
                             extra=["--gate", "trylock"], seed_off=51, timeout=60))
     st = sc.execute(ctx, runs, PREFIXES)
